@@ -77,9 +77,10 @@ def load_known():
         line = line.strip()
         if not line or line.startswith("#"):
             continue
-        m = re.match(r"finding:\s+property=(\S+)\s+key=(\S+)\s+::\s+(.*)$", line)
+        m = re.match(r"finding:\s+property=(\S+)\s+key=(.+?)\s+::\s+(.*)$", line)
         if m:
-            known[(m.group(1), m.group(2))] = m.group(3)
+            for prop in m.group(1).split(","):
+                known[(prop, m.group(2))] = m.group(3)
             continue
         if line.startswith("fixed:"):
             fixed.append(line)
